@@ -55,7 +55,8 @@ def compare_select(case, ordered=True):
         return fails, info
     _, names, types, want = m
     conn, _ = connect(case['tables'], case.get('default'))
-    r = engine(conn, case['text'], case.get('params'))
+    query = bql.to_ast(case['sel']) if case.get('via_ast') else case['text']
+    r = engine(conn, query, case.get('params'))
     if r[0] == 'exc':
         fails.append((exc_sig(r[1], 'accepted-query-raises'), f"{case['text']!r}: {r[1]!r}"))
         return fails, info
@@ -85,6 +86,14 @@ def classify_mismatch(got, want):
                     return 'cell:type'
                 return 'cell:value'
     return 'rows:shape'
+
+
+def force_aliases(sel):
+    """Give every expression target an alias so that the statement can be executed from its AST
+    (without source text an expression target has no text to be named by)."""
+    if sel['targets'] != '*':
+        sel['targets'] = [(e, a if a is not None or e[0] == 'col' else f'e{i}') for i, (e, a) in enumerate(sel['targets'])]
+    return sel
 
 
 def nodes(e):
